@@ -8,6 +8,7 @@ import KanidmModel.StoreCodec
 * `dbctor <serde>`                     → `ok <DbCtor> <Struct|reject>`
 * `restore <password|intent-token-state> <DbVariant> <f,f,…>`
                                        → `ok <DbVariant'> <f,f,…>` (stored → memory → stored)
+* `msgexp <nanos>`                     → the message expiry time after store + load
 * `entry <uuidKey> <id> <uuid> <cs> <attrs>`  → `ok <uuid> <cs> <attrs>` | `none`
 * `repl <full|incr> <keys within> <id> <uuid> <cs> <attrs>` → `ok <uuid> <cs> <attrs>` | `none`
 
@@ -96,6 +97,10 @@ def handle (line : String) : String :=
     match findPair pn with
     | some p => ",".intercalate p.dbNames
     | none => "bad-pair"
+  | ["msgexp", t] =>
+    match nat? t with
+    | some t => toString (messageExpiryCodec.load (messageExpiryCodec.store t))
+    | none => "bad-op"
   | ["tag", pn, mem] =>
     match findPair pn with
     | some p => handleTag p mem
